@@ -10,6 +10,8 @@ import VModel.Auth
 import VProofs.JsonCompact
 import VProofs.JsonCanon
 import VGen.Versions
+import VProofs.EventAccessorsRedact
+import VProofs.StateResNoPanic
 namespace V.C18
 open V V.Json
 
@@ -52,5 +54,241 @@ theorem canonical_no_panic (t : Bytes) (hs : ∀ p, parse t = some p → p.surro
     cases h
 
 example : (match canonical [0x7B, 0x22, 0x61, 0x22, 0x3A, 0x2D, 0x30, 0x7D] with | .ok b => b == [0x7B, 0x22, 0x61, 0x22, 0x3A, 0x30, 0x7D] | .error _ => false) = true := by decide
+
+/-! ## Accessors of accepted events (VModel.EventAccessors; sites: VModel/PanicSites.md) -/
+
+section Accessors
+open V.EventParse V.EventAccessors V.AccProofs
+
+/-- **No method of the `PDU` interface panics on an event `NewEventFromUntrustedJSON` returned** — `EventID`, `RoomID`
+    (also of a version-12 create event, whose room ID is derived from the event ID), `AuthEventIDs`, `PrevEventIDs`,
+    `Membership`, `JoinRule`, `HistoryVisibility`, `PowerLevels`, `SenderID().IsUserID()`, `ToHeaderedJSON`,
+    `SetUnsigned`, `CheckFields`, `Redact()`, and the plain field reads — for every registered room version and every
+    input text.  Guards: the room-ID check of the constructors dominates `spec.NewRoomID` in `RoomID()` and the `[1:]`
+    of `AuthEventIDs()`; the event ID computed at construction dominates `EventID()`'s fallback and, being `$` plus 43
+    URL-safe base64 characters, is a valid room ID after the sigil swap; the redaction computed at construction, the
+    canonical-JSON check of the input and its struct decoding dominate the four sites of `Redact()`; the regenerated
+    table dominates the function-valued `ParsePowerLevels`.
+    Hypothesis: the hash returns 32 bytes (SHA-256).  `Sign` is NOT in this list: see `no_panic_sign` / `sign_panics`. -/
+theorem no_panic_accessors (H : Bytes → Bytes) (hH : Len32 H) {ver text : Bytes} {e : PDU}
+    (h : parseUntrusted H ver text = .ok e) :
+    ∀ a : Acc, a.isSign = false → ∀ site, run H a e ≠ .error (.panic site) := by
+  obtain ⟨row, I⟩ := inv_of_accepted h
+  intro a ha site
+  cases a with
+  | eventID => exact cls_of_ok ⟨_, eventID_ok I⟩ site
+  | stateKey => intro h; cases h
+  | stateKeyEquals s => intro h; cases h
+  | type => intro h; cases h
+  | content => intro h; cases h
+  | joinRule => exact joinRule_np e site
+  | historyVisibility => exact historyVisibility_np e site
+  | membership => exact membership_np e site
+  | powerLevels => exact powerLevels_np I.hrow I.hver I.hfmt site
+  | version => intro h; cases h
+  | roomID => exact cls_of_ok (roomID_ok hH I) site
+  | redacts => intro h; cases h
+  | redacted => intro h; cases h
+  | prevEventIDs => intro h; cases h
+  | originServerTS => intro h; cases h
+  | senderID => intro h; cases h
+  | senderIsUserID => intro h; cases h
+  | unsigned => intro h; cases h
+  | depth => intro h; cases h
+  | json => intro h; cases h
+  | authEventIDs => exact cls_of_ok (authEventIDs_ok I) site
+  | toHeaderedJSON => exact toHeadered_np I site
+  | checkFields =>
+    show checkFields e ≠ _
+    rw [I.fields]
+    intro h; cases h
+  | setUnsigned u => exact setUnsigned_np e u site
+  | redact => exact redact_np h I site
+  | sign n k s => cases ha
+
+/-- **`Sign()` reaches none of its panic sites on an accepted event whose `signatures` member decodes** (absent, `null`, or
+    an object of objects of base64 strings — what `SignJSON` needs to add a signature; `sigsDecodable`).  Without that
+    hypothesis the statement is false: `sign_panics`. -/
+theorem no_panic_sign (H : Bytes → Bytes) {ver text : Bytes} {e : PDU} (h : parseUntrusted H ver text = .ok e)
+    (hs : sigsDecodable e = true) : ∀ name kid sig site, run H (.sign name kid sig) e ≠ .error (.panic site) := by
+  obtain ⟨row, I⟩ := inv_of_accepted h
+  intro name kid sig site
+  exact sign_np h I hs name kid sig site
+
+/-- **Events from trusted JSON** (`NewEventFromTrustedJSON`, any text, any version, either `redacted` flag): every
+    method but `Redact()`, `Sign()` and `RoomID()` reaches no site; `RoomID()` reaches none unless the event is a
+    version-12 create event.  Those three need the untrusted constructor: `Redact()` / `Sign()` rely on the redaction,
+    canonical-JSON and decoding checks only it performs, and a version-12 create event built from trusted JSON keeps an
+    `event_id` member of that JSON as its ID, from which `RoomID()` derives an invalid room ID (`trusted_roomID_panics`). -/
+theorem no_panic_accessors_trusted (H : Bytes → Bytes) {ver text : Bytes} {red : Bool} {e : PDU}
+    (h : parseTrusted H ver red text = .ok e) :
+    (∀ a : Acc, a.trustedSafe = true → ∀ site, run H a e ≠ .error (.panic site)) ∧
+    ((e.fmt == .v3 && isCreate e) = false → ∀ site, run H .roomID e ≠ .error (.panic site)) := by
+  obtain ⟨T, hv, row, fmt, hrow, hfmt⟩ := tinv_of_trusted h
+  refine ⟨?_, fun hc site => cls_of_ok (roomID_ok' T hc) site⟩
+  intro a ha site
+  cases a with
+  | eventID => exact cls_of_ok ⟨_, eventID_ok' T⟩ site
+  | stateKey => intro h; cases h
+  | stateKeyEquals s => intro h; cases h
+  | type => intro h; cases h
+  | content => intro h; cases h
+  | joinRule => exact joinRule_np e site
+  | historyVisibility => exact historyVisibility_np e site
+  | membership => exact membership_np e site
+  | powerLevels => exact powerLevels_np hrow hv hfmt site
+  | version => intro h; cases h
+  | roomID => cases ha
+  | redacts => intro h; cases h
+  | redacted => intro h; cases h
+  | prevEventIDs => intro h; cases h
+  | originServerTS => intro h; cases h
+  | senderID => intro h; cases h
+  | senderIsUserID => intro h; cases h
+  | unsigned => intro h; cases h
+  | depth => intro h; cases h
+  | json => intro h; cases h
+  | authEventIDs => exact cls_of_ok (authEventIDs_ok' T) site
+  | toHeaderedJSON => exact toHeadered_np' T site
+  | checkFields => exact checkFields_np T site
+  | setUnsigned u => exact setUnsigned_np e u site
+  | redact => cases ha
+  | sign n k s => cases ha
+
+/-! ### Non-vacuity and the two preconditions the proofs forced (toy hash: 32 zero bytes, whose base64 is 43 `A`s) -/
+
+def H32 : Bytes → Bytes := fun _ => List.replicate 32 0
+
+theorem H32_len : Len32 H32 := fun _ => rfl
+
+def exEvent (members : String) : Bytes :=
+  ("{" ++ members ++ "\"auth_events\":[],\"content\":{\"body\":\"x\"},\"depth\":1,\"hashes\":{\"sha256\":\"AAAAAAAAAAAAAAAAAAAAAAAAAAAAAAAAAAAAAAAAAAA\"}," ++
+   "\"origin_server_ts\":1,\"prev_events\":[],\"sender\":\"@a:h\",\"type\":\"m.x\"}").toList.flatMap (fun c => utf8Encode c.toNat)
+
+/-- an accepted, unredacted event: the whole sweep (accessors, `Redact()`, accessors again) reaches no site -/
+example : (match parseUntrusted H32 b!"10" (exEvent "\"room_id\":\"!r:h\",") with
+  | .ok e => !e.redacted && (sweep H32 e).isNone
+  | _ => false) = true := by decide +kernel
+
+/-- **`Sign()` panics on an accepted event whose `signatures` member does not decode** (here the number 5):
+    the precondition of `no_panic_sign` cannot be dropped.  Reproduced on the real code (VModel/PanicSites.md, D1). -/
+theorem sign_panics : (match parseUntrusted H32 b!"10" (exEvent "\"room_id\":\"!r:h\",\"signatures\":5,") with
+  | .ok e => !e.redacted && (panicSite H32 (.sign b!"me" b!"ed25519:1" b!"c2ln") e).isSome
+  | _ => false) = true := by decide +kernel
+
+/-- **After `Redact()`, `RoomID()` panics on an accepted event that carries a case variant of `room_id`**: the
+    struct decoding reads `Room_id` (and skips the `null` of `room_id`), the redaction keeps the LAST matching member,
+    `"room_id":null`, and the redacted event then has the empty room ID.  So the accessor theorem does not extend to
+    the event after `Redact()` without a hypothesis on case variants.  Reproduced on the real code (D3). -/
+theorem roomID_after_redact_panics :
+    (match parseUntrusted H32 b!"10" (exEvent "\"Room_id\":\"!r:h\",\"room_id\":null,") with
+  | .ok e => !e.redacted && (panicSite H32 .roomID e).isNone && (sweep H32 e) == some "RoomID is invalid"
+  | _ => false) = true := by decide +kernel
+
+/-- **`RoomID()` panics on a version-12 create event built from trusted JSON that carries its own `event_id`**
+    (found by the generator of area `fuzz`, op `trusted`; PanicSites.md D4). -/
+theorem trusted_roomID_panics :
+    (match parseTrusted H32 b!"12" false ("{\"event_id\":\"y\",\"state_key\":\"\",\"type\":\"m.room.create\"}".toList.flatMap (fun c => utf8Encode c.toNat)) with
+  | .ok e => (panicSite H32 .roomID e) == some "RoomID is invalid"
+  | _ => false) = true := by decide +kernel
+
+end Accessors
+
+/-! ## State resolution and the orderings (VModel.StateResPanic; sites: VModel/PanicSites.md) -/
+
+section Resolution
+open V.StateRes V.StateResPanic V.SRPanic
+
+/-- **Refinement.**  Whenever no panic site fires, the panic-explicit entry points return exactly what the
+    executable model `VModel.StateRes` returns — so every C10 / C11 theorem about the model (`resolveV2_eq_spec`,
+    `resolve_perm_invariant`, …) holds of them unchanged. -/
+theorem resolve_refines (sha : ID → Bytes) (ver : Bytes) (sets : List (List Event)) (auth : List Event) (rej : List ID)
+    {r : Option (List ID)} (h : resolveConflictsNewP sha ver sets auth rej = .ok r) :
+    r = resolveConflictsNew sha ver sets auth rej :=
+  resolveConflictsNewP_eq h
+
+theorem resolve_refines_deprecated (sha : ID → Bytes) (ver : Bytes) (events auth : List Event) (rej : List ID)
+    {r : Option (List ID)} (h : resolveConflictsOldP sha ver events auth rej = .ok r) :
+    r = resolveConflictsOld sha ver events auth rej :=
+  resolveConflictsOldP_eq h
+
+/-- **`ResolveConflictsNew` reaches no panic site** — version 1, 2 and 2.1 algorithms — for every list of state sets
+    and auth events such that
+    * `hev`  every event is one the constructors return (`EvOK`: `RoomID()` returns — `no_panic_accessors` —, the room ID
+      has a domain unless the version derives it from the create event, the version is registered), and, for the
+      version 2 / 2.1 algorithms (`hv2`, `PreV2`),
+    * at least two state sets are supplied (the caller's side of the explicit panic at stateresolutionv2.go:246), and
+    * no auth path inside the conflicted events, and none through power-levels auth events, is longer than the number of
+      events supplied, i.e. the auth graph has no cycle there (`SRPanic.pathsShorter_of_rank`: any rank that decreases
+      along auth edges gives this).
+    The last hypothesis is forced by the code: see `resolve_cycle_panics`.  The result is the model's. -/
+theorem no_panic_resolve (sha : ID → Bytes) (ver : Bytes) (sets : List (List Event)) (auth : List Event) (rej : List ID)
+    (hev : ∀ e, e ∈ sets.flatten ∨ e ∈ auth → EvOK e)
+    (hv2 : ∀ row, versionRow? ver = some row → row.stateResAlgorithm ≠ 1 → PreV2 sets auth) :
+    resolveConflictsNewP sha ver sets auth rej = .ok (resolveConflictsNew sha ver sets auth rej) ∧
+    ∀ site, resolveConflictsNewP sha ver sets auth rej ≠ .error (.panic site) := by
+  have h := resolveConflictsNewP_ok (sha := sha) rej hev hv2
+  exact ⟨h, fun site hc => by rw [h] at hc; cases hc⟩
+
+/-- the same for the deprecated entry point `ResolveConflicts` (→ `ResolveStateConflicts` / `ResolveStateConflictsV2`) -/
+theorem no_panic_resolve_deprecated (sha : ID → Bytes) (ver : Bytes) (events auth : List Event) (rej : List ID)
+    (hev : ∀ e, e ∈ events ∨ e ∈ auth → EvOK e)
+    (hv2 : ∀ row, versionRow? ver = some row → row.stateResAlgorithm ≠ 1 →
+      PreV2Old (splitConflictedUnconflicted true [events]).1 (splitConflictedUnconflicted true [events]).2 auth) :
+    resolveConflictsOldP sha ver events auth rej = .ok (resolveConflictsOld sha ver events auth rej) ∧
+    ∀ site, resolveConflictsOldP sha ver events auth rej ≠ .error (.panic site) := by
+  have h := resolveConflictsOldP_ok (sha := sha) rej hev hv2
+  exact ⟨h, fun site hc => by rw [h] at hc; cases hc⟩
+
+/-- **`ReverseTopologicalOrdering`** (both orders) reaches no site on events the constructors return: by auth events
+    `MustGetRoomVersion` is the only site (the public entry point has an empty auth map, so nothing is recursed into);
+    by prev events there is none. -/
+theorem no_panic_orderings (evs : List Event) (hev : ∀ e ∈ evs, EvOK e) :
+    reverseTopoAuthEntryP evs = .ok (reverseTopoAuth [] (getCreateEvent evs) evs) ∧
+    reverseTopoPrevEntryP evs = .ok (reverseTopoPrev evs) :=
+  ⟨reverseTopoAuthEntryP_ok hev, rfl⟩
+
+/-! ### Non-vacuity, and the precondition the proof forced -/
+
+def exEv (id type : Bytes) (extra : List (Bytes × JVal)) : Event :=
+  { ver := b!"2", eventID := id,
+    obj := [(b!"type", .str type), (b!"state_key", .str []), (b!"sender", .str b!"@a:h"), (b!"room_id", .str b!"!r:h"),
+            (b!"content", .obj []), (b!"origin_server_ts", .num b!"1"), (b!"depth", .num b!"1")] ++ extra }
+
+def exRef (id : Bytes) : JVal := .arr [.str id, .obj []]
+
+def sameOK (a : Except Err (Option (List ID))) (b : Option (List ID)) : Bool :=
+  match a with
+  | .ok r => r == b
+  | .error _ => false
+
+def panicsWith (a : Except Err (Option (List ID))) (site : String) : Bool :=
+  match a with
+  | .error (.panic s) => s == site
+  | _ => false
+
+/-- two conflicting power-levels events without auth events, room version 2: resolved, no site -/
+example : sameOK (resolveConflictsNewP (fun _ => []) b!"2"
+      [[exEv b!"$a:h" b!"m.room.power_levels" []], [exEv b!"$b:h" b!"m.room.power_levels" []]] [] [])
+    (resolveConflictsNew (fun _ => []) b!"2"
+      [[exEv b!"$a:h" b!"m.room.power_levels" []], [exEv b!"$b:h" b!"m.room.power_levels" []]] [] []) = true := by
+  decide +kernel
+
+/-- **A conflicted power-levels event that names itself among its `auth_events` (room version 2, whose event IDs are
+    chosen by the sender) sends `fullControlSet` into an unbounded recursion**: the acyclicity hypothesis of
+    `no_panic_resolve` cannot be dropped.  On the real code this is a fatal stack overflow (not recoverable):
+    reproduced through `ResolveConflictsNew` (VModel/PanicSites.md, D2). -/
+theorem resolve_cycle_panics :
+    panicsWith (resolveConflictsNewP (fun _ => []) b!"2"
+      [[exEv b!"$a:h" b!"m.room.power_levels" [(b!"auth_events", .arr [exRef b!"$a:h"])]],
+       [exEv b!"$b:h" b!"m.room.power_levels" []]] [] [])
+      "stateresolutionv2.go:139/307 fullControlSet: unbounded recursion (cyclic auth_events)" = true := by
+  decide +kernel
+
+-- (The same shape through a power-levels auth event that names itself reaches the site of
+-- `getFirstPowerLevelMainlineEvent`; replayed on the real code, PanicSites.md D2.  `firstMainlineP` is compiled by
+-- well-founded recursion and does not reduce in the kernel, so that instance is evaluated by the driver only.)
+
+end Resolution
 
 end V.C18
